@@ -100,6 +100,15 @@ func cellsC04(thorough bool) []Cfg {
 			}
 		}
 	}
+	// answers that arrive a few microseconds before the next token is due: the instance has to sleep
+	// for that remainder, however short
+	for _, p := range []Sched{cst(2, 3000), cst(10, 2000)} {
+		for _, h := range [][]int64{{500}, {100}, {1000}, {100, 400}} {
+			for _, skew := range []int64{1, 50, 99, 900} {
+				out = append(out, Cfg{Prop: "C04", Startup: once(1), RPS: p, Ammo: -1, Discard: true, ShotMs: h, SkewUs: skew, Bound: 0})
+			}
+		}
+	}
 	// several instances: interleavings and stalls (ADVANCE) with preemption bound 1
 	ml := 2
 	for _, n := range []int{2, 3} {
@@ -162,6 +171,25 @@ func cellsC05(thorough bool) []Cfg {
 		c := base()
 		c.Fault = f
 		c.WarmUp = true
+		out = append(out, c)
+	}
+	// two components failing in the same run: nobody may stay blocked handing over the second error
+	for _, ff := range [][2]Fault{{{"prov", 1}, {"aggstart", 0}}, {{"panic", 1}, {"prov", 1}}, {{"aggstart", 0}, {"provlate", 0}}, {{"panic", 1}, {"aggend", 0}}, {{"prov", 0}, {"panic", 0}}, {{"aggstart", 0}, {"gun", 1}}} {
+		for _, per := range []bool{false, true} {
+			c := base()
+			c.Fault, c.Fault2 = ff[0], ff[1]
+			c.PerInst = per
+			out = append(out, c)
+		}
+	}
+	// a warm-up that takes 5 s and ignores the context; the caller cancels before, during and after it
+	for _, per := range []bool{false, true} {
+		c := base()
+		c.WarmUp = true
+		c.WarmMs = 5000
+		c.Cancel = true
+		c.CancelMs = []int64{0, 1000, 6000}
+		c.PerInst = per
 		out = append(out, c)
 	}
 	// cancellation at every phase
@@ -239,7 +267,7 @@ func cellsC05(thorough bool) []Cfg {
 func cellsC12(thorough bool) []Cfg {
 	var out []Cfg
 	startups := []Sched{once(1), once(2), once(3), cst(2, 1000), istep(1, 3, 1, 1000), comp(once(1), cst(0, 1000), once(2)),
-		istep(1, 6, 4, 1000), istep(0, 2, 1, 1000), comp(cst(0, 1000), once(2)), istep(2, 5, 2, 500)}
+		istep(1, 6, 4, 1000), istep(0, 2, 1, 1000), comp(cst(0, 1000), once(2)), istep(2, 5, 2, 500), istep(3, 1, 1, 500)}
 	type rpsV struct {
 		s    Sched
 		shot int64
